@@ -2,6 +2,7 @@ package props
 
 import (
 	"bytes"
+	"chgosim/refproto"
 	"fmt"
 	"hash/fnv"
 	"testing"
@@ -161,6 +162,24 @@ func runC14(t *testing.T, c *choice.Stream, r *Result, opt RunOpt) {
 		// path equivalence: the vectored path and the buffer path give the same bytes
 		cols := DrawCols(c, "cols", 3, 2)
 		rows := gen.DrawRows(c, "rows")
+		if c.Bool("block.bigfixed", 1, 250) {
+			// several columns of one fixed-width type, each more than a megabyte on
+			// the wire: whatever a column writer borrows or shares is used twice
+			// before the flush
+			t := []string{"UUID", "Int64", "FixedString(16)", "Int256", "Float64", "IPv6"}[c.Draw("block.bigfixed.type", 6)]
+			rt, err := refproto.ParseType(t)
+			if err != nil {
+				panic(err)
+			}
+			cols = nil
+			for i := 0; i < c.Range("block.bigfixed.n", 2, 3); i++ {
+				cols = append(cols, ColSpec{Name: fmt.Sprintf("c%d", i), Type: t, RT: rt})
+			}
+			rows = (1<<20)/rt.Size + c.Pick("block.bigfixed.plus", 0, 1, 4464)
+			if rt.Size*rows < 1<<20 {
+				rows = (1<<20)/rt.Size + 1
+			}
+		}
 		rev := revMenu()[c.Draw("rev", len(revMenu()))]
 		var input []proto.InputColumn
 		vr := c.Sub("vals")
